@@ -103,7 +103,7 @@ def safe_name(s):
     return re.sub(r"[^A-Za-z0-9_.-]+", "_", s)[:150]
 
 
-def finish(report, meta, tier, seed):
+def finish(report, meta, tier, seed, extra=None):
     """Print the verdict lines, write evidence and replay files, return the exit code."""
     known = load_known()
     known_keys = {f["key"]: f for f in known.get("findings", []) if f["property"] == report.prop}
@@ -127,11 +127,11 @@ def finish(report, meta, tier, seed):
             json.dump({"property": report.prop, **v.as_json()}, fh, indent=1)
         print("  %s %s: %s" % (v.loc or "-", v.full_key, v.detail))
         print("VIOLATION property=%s replay=%s" % (report.prop, path))
-    write_evidence(report, meta, tier, seed, len(new), len(listed))
+    write_evidence(report, meta, tier, seed, len(new), len(listed), extra)
     return 1 if new else 0
 
 
-def write_evidence(report, meta, tier, seed, n_new, n_known):
+def write_evidence(report, meta, tier, seed, n_new, n_known, extra=None):
     insts = [i for i in report.insts if i.status != "info"]
     by_status = {}
     for i in insts:
@@ -167,6 +167,8 @@ def write_evidence(report, meta, tier, seed, n_new, n_known):
         "explanation": meta.get("explanation", ""),
         "exhaustive": False,
     }
+    if extra:
+        cov.update(extra)
     if level == "proof":
         obl = [i for i in insts if i.status in ("ok", "violation") and i.extra.get("obligation")]
         cov["obligations"] = len(obl)
